@@ -187,10 +187,14 @@ class C10(HostProp):
     oracles = ("trace",)
     CELLS = [(cli, sw, ap, st) for cli in ("assembler", "file_util") for sw in KINDS for ap in (False, True) for st in STATES]
     EXTRA = [(cli, sw, ap, "peer_cas_hibit") for cli in ("assembler", "file_util") for sw in KINDS for ap in (False, True)]
-    rule = ("Run indices 0..107 (x8 content seeds in thorough) enumerate the full matrix {assembler.py, file_util.py} x {--to_bin, --to_cas, "
+    rule = ("Run indices 0..119 (x8 content seeds in thorough) enumerate the full matrix {assembler.py, file_util.py} x {--to_bin, --to_cas, "
             "--to_dsk} x {append, no append} x 9 pre-existing target states (absent, empty, tool cassette, peer cassette, tool disk, peer "
-            "disk, raw binary, arbitrary bytes, cassette >= 161,280 bytes); further runs are seeded sequences of 2..6 invocations over 1..3 "
-            "paths with an injected read error on the existing target in a fifth of them. Oracle = I/O event trace per invocation: "
+            "disk, raw binary, arbitrary bytes, cassette >= 161,280 bytes - for --to_dsk always of exactly that size, sometimes one that "
+            "also reads as a disk) plus 12 cells with a peer tape whose name field has a high-bit byte; further runs are seeded sequences "
+            "of 2..6 invocations over 1..3 paths (also spelled ./x and ~/x with a decoy in the home directory, names related by a suffix "
+            "like .tmp, one file named by several switches) with an injected read error on the existing target in a fifth of them and "
+            "unstorable names (a save that must fail half way); a third of the hosts run their processes as python -O does. Besides the "
+            "target rule, no invocation may touch any file other than its targets (WROTE-ELSEWHERE). Oracle = I/O event trace per invocation: "
             "TRUNCATE/WRITE/CREATE or a write-mode OPEN on the target only if it was absent, or append was given and the reference readers "
             "classify the old content as the kind being written; a refused save prints something; a save that proceeds leaves a complete "
             "image of the requested kind. A state is (kinds/file counts of all paths, op, flags, target switch).")
